@@ -254,7 +254,8 @@ class TU:
         if 'type' in c:
             return dq(c['type'])
         if 'value' in c:
-            return str(c['value'])
+            v = c['value']
+            return ('true' if v else 'false') if isinstance(v, bool) else str(v)
         if c.get('isPack') or 'inner' in c:
             return ', '.join(self.targ_str(x) for x in c.get('inner', []) if x.get('kind') == 'TemplateArgument')
         if 'decl' in c:
@@ -322,7 +323,9 @@ class Lower:
             ts = self.tu.rec_typestr(rec)
             if '<dependent' in ts or 'type-parameter' in ts:
                 continue
-            self.rec_by_t.setdefault(norm_t(ts), rec)
+            for key in self.typestr_variants(rec, ts):
+                self.rec_by_t.setdefault(norm_t(key), rec)
+                self.rec_by_t.setdefault(self.strip_default_args(norm_t(key)), rec)
         # `this` types are printed canonically: harvest them too
         for fn in self.tu.all_fns:
             rec = self.tu.rec_of_member.get(fn['id'])
@@ -346,9 +349,37 @@ class Lower:
             for c in n.get('inner', []) or []:
                 stack.append((c, cur))
 
+    def typestr_variants(self, rec, ts):
+        """bool template arguments are dumped as 0/1 but printed as false/true inside type strings"""
+        out = [ts]
+        if rec.get('kind') == 'ClassTemplateSpecializationDecl':
+            args = [c for c in rec.get('inner', []) if c.get('kind') == 'TemplateArgument']
+            if any('value' in c and c['value'] in (0, 1) and not isinstance(c['value'], bool) for c in args):
+                q = self.tu.qualname(rec)
+                parts = []
+                for c in args:
+                    if 'value' in c and c['value'] in (0, 1):
+                        parts.append('true' if c['value'] else 'false')
+                    else:
+                        parts.append(self.tu.targ_str(c))
+                out.append(q + '<' + ', '.join(parts) + '>')
+        return out
+
+    @staticmethod
+    def strip_default_args(key):
+        """clang elides defaulted template arguments when printing some types: index records under that spelling too"""
+        prev = None
+        while prev != key:
+            prev = key
+            key = re.sub(r',std::allocator<[^<>]*>', '', key)
+            key = re.sub(r',std::char_traits<[^<>]*>', '', key)
+        return key
+
     def find_record(self, t):
         key = norm_t(t)
         r = self.rec_by_t.get(key)
+        if r is None:
+            r = self.rec_by_t.get(self.strip_default_args(key))
         if r is not None:
             return r
         if not hasattr(self, '_rec_miss'):
@@ -362,10 +393,12 @@ class Lower:
         return r
 
     def rec_alias_of(self, rec):
-        ts = norm_t(self.tu.rec_typestr(rec))
-        for rx, al in self.rec_alias:
-            if re.fullmatch(rx, ts):
-                return al
+        ts0 = self.tu.rec_typestr(rec)
+        for v in self.typestr_variants(rec, ts0):
+            for ts in (norm_t(v), self.strip_default_args(norm_t(v))):
+                for rx, al in self.rec_alias:
+                    if re.fullmatch(rx, ts):
+                        return al
         return None
 
     def struct_for(self, rec):
@@ -452,7 +485,43 @@ class Lower:
         al = self.resolve_alias(t)
         if al is not None:
             return self.ctype(al)
+        al = self.resolve_alias_template(t)
+        if al is not None:
+            return self.ctype(al)
         raise Unsupported('type: ' + tstr)
+
+    def resolve_alias_template(self, t):
+        """alias template left un-desugared by clang:  name<args>  with  template<params> using name = pattern;"""
+        m = re.fullmatch(r'(?:[\w:]*::)?(\w+)<(.*)>', t)
+        if not m:
+            return None
+        if not hasattr(self, '_alias_tmpl'):
+            self._alias_tmpl = {}
+            stack = [self.tu.root]
+            while stack:
+                n = stack.pop()
+                for c in n.get('inner', []) or []:
+                    k = c.get('kind')
+                    if k in ('NamespaceDecl', 'LinkageSpecDecl'):
+                        stack.append(c)
+                    elif k == 'TypeAliasTemplateDecl':
+                        params = [x.get('name') for x in c.get('inner', []) if x.get('kind') in ('TemplateTypeParmDecl', 'NonTypeTemplateParmDecl')]
+                        al = [x for x in c.get('inner', []) if x.get('kind') == 'TypeAliasDecl']
+                        if al:
+                            ns = self.tu.qualname(c)
+                            self._alias_tmpl.setdefault(c.get('name'), (params, al[0]['type']['qualType'], '::'.join(ns.split('::')[:-1]) if '::' in ns else ''))
+        ent = self._alias_tmpl.get(m.group(1))
+        if ent is None:
+            return None
+        params, pattern, ns = ent
+        args = split_top(m.group(2))
+        if len(args) != len(params):
+            return None
+        out = re.sub(r'^typename ', '', pattern)
+        for pn, a in zip(params, args):
+            if pn:
+                out = re.sub(r'\b%s\b' % re.escape(pn), a, out)
+        return out
 
     def resolve_alias(self, t):
         """sugar that clang left in a type string: member typedef of the current record (or its bases),
@@ -787,6 +856,7 @@ class Lower:
         self.tmpn = 0
         self.tmps = []
         self.loopk = 0
+        self.retk = 0
         self.pre = []
         self.cur_ret_ref = self.ret_is_ref(fn)
         self.cur_ret_ct = self.ret_ctype(fn)
@@ -944,6 +1014,23 @@ class Lower:
             return '\n'.join(out)
         if k == 'ReturnStmt':
             inner = [x for x in n.get('inner', []) if 'kind' in x]
+            self.retk = getattr(self, 'retk', 0) + 1
+            gh = self.ghost_ret(self.retk, ind)
+            if gh:
+                r = self.stmt_return(n, inner, ind)
+                return '\n'.join(gh + [r])
+            return self.stmt_return(n, inner, ind)
+        return self.stmt_other(n, ind)
+
+    def ghost_ret(self, k, ind):
+        name = 'XV_GHOST_RET_%s_%d' % (self.cur_nm, k)
+        if self.have_macro(name):
+            return ['  ' * ind + name + ';']
+        return []
+
+    def stmt_return(self, n, inner, ind):
+        I = '  ' * ind
+        if True:
             if not inner:
                 return I + 'return;'
             if self.cur_ret_ref:
@@ -959,6 +1046,10 @@ class Lower:
                 t = self.newtmp(self.cur_ret_ct, 'r')
                 return '\n'.join(self.flush_pre(ind) + [I + '%s = %s;' % (t, e)] + pe + [I + 'return %s;' % t])
             return '\n'.join(self.flush_pre(ind) + [I + 'return %s;' % e])
+
+    def stmt_other(self, n, ind):
+        I = '  ' * ind
+        k = n.get('kind')
         if k == 'IfStmt':
             inner = [x for x in n['inner']]
             cond = inner[0]
@@ -983,7 +1074,12 @@ class Lower:
                 raise Unsupported('call that may throw in a loop increment')
             tag = self.loop_tag()
             k = self.loopk
-            out.append(I + '  for (; %s; %s)%s\n%s' % (sc, sn, tag, self.block(body, ind + 1)))
+            out += self.ghost_hook('BEFORE', k, ind + 1)
+            gb = self.ghost_hook('BODY', k, ind + 2)
+            bt = self.block(body, ind + 1)
+            if gb:
+                bt = bt.replace('{', '{\n' + gb[0], 1)
+            out.append(I + '  for (; %s; %s)%s\n%s' % (sc, sn, tag, bt))
             out += self.ghost_after(k, ind + 1)
             out.append(I + '}')
             return '\n'.join(out)
@@ -1113,7 +1209,9 @@ class Lower:
         init = [c for c in v.get('inner', []) if 'kind' in c and c['kind'] not in ('FullComment',) and 'valueCategory' in c or c.get('kind') in ('InitListExpr', 'CXXConstructExpr', 'ExprWithCleanups')]
         st = ''
         if v.get('storageClass') == 'static':
-            st = 'static '
+            # function-local `static const(expr)` tables become automatic const arrays (initialised on entry): the contract
+            # instrumentation treats every static as arbitrary at function entry, which is only right for mutable ones
+            st = 'const ' if (vt.strip().startswith('const ') or v.get('constexpr')) else 'static '
         if self.is_ref(vt):
             if not init:
                 raise Unsupported('reference without init')
@@ -1125,6 +1223,8 @@ class Lower:
             return out
         e0 = self.skip_wrappers(init[0])
         if (st or re.search(r'\[\d+\]$', strip_cv(vt))) and e0.get('kind') == 'InitListExpr':
+            if st == 'const ':
+                return [I + '%s%s = %s;' % (st, decl, self.c_initializer(e0))]
             # static const tables: emit a C initialiser
             return [I + '%s%s = %s;' % (st, decl, self.c_initializer(e0))]
         if e0.get('kind') in ('CXXConstructExpr', 'CXXTemporaryObjectExpr', 'InitListExpr') and \
@@ -1227,12 +1327,23 @@ class Lower:
         if rd['kind'] in ('VarDecl', 'ParmVarDecl'):
             if rd['kind'] == 'VarDecl' and self.is_global_var(decl):
                 return self.global_var(decl)
+            name = rd.get('name') or self.unnamed_param(rd['id'])
             if self.is_ref(dt):
-                return '(*%s)' % rd['name']
-            return rd['name']
+                return '(*%s)' % name
+            return name
         if rd['kind'] == 'FunctionDecl' or rd['kind'] == 'CXXMethodDecl':
             return self.want(self.tu.byid[rd['id']])
         raise Unsupported('declref lv ' + rd['kind'])
+
+    def is_empty_record(self, tstr):
+        rec = self.find_record(strip_cv(tstr))
+        return rec is not None and not rec.get('bases') and not [c for c in rec.get('inner', []) if c.get('kind') == 'FieldDecl']
+
+    def unnamed_param(self, pid):
+        for i, p in enumerate(self.params(self.cur_fn)):
+            if p['id'] == pid:
+                return '_p%d' % i
+        raise Unsupported('reference to an unnamed declaration')
 
     def is_global_var(self, decl):
         p = decl.get('_p') or {}
@@ -1259,6 +1370,8 @@ class Lower:
         self.globals[gid] = (nm, None)
         if e0.get('kind') == 'InitListExpr':
             text = 'static const %s = %s;' % (self.cdecl(vt, nm), self.c_initializer(e0))
+        elif self.is_empty_record(vt) or (e0.get('kind') in ('CXXConstructExpr', 'CXXTemporaryObjectExpr') and not [x for x in e0.get('inner', []) if 'kind' in x]):
+            text = 'static const %s = {0};' % self.cdecl(vt, nm)     # value-initialised tag object
         else:
             text = 'static const %s = %s;' % (self.cdecl(vt, nm), self.rv(init[0]))
         self.globals[gid] = (nm, text)
@@ -1772,6 +1885,21 @@ class Lower:
             return t
         return s
 
+    def model_call(self, name, argv, ret_ct, maythrow=False):
+        """call into the C standard-library model; a model function that may set xv_exc is hoisted like any throwing call"""
+        s = '%s(%s)' % (name, ', '.join(argv))
+        if not maythrow:
+            return s
+        self.throws.add(self.cur_m)
+        if ret_ct == 'void':
+            self.pre.append('%s;' % s)
+            self.pre.append(self.exc_return())
+            return '((void)0)'
+        t = self.newtmp(ret_ct, 'c')
+        self.pre.append('%s = %s;' % (t, s))
+        self.pre.append(self.exc_return())
+        return t
+
     def call(self, n, discard=False):
         k = n['kind']
         inner = [x for x in n['inner'] if 'kind' in x]
@@ -1842,7 +1970,7 @@ class Lower:
         return objp
 
     # ---------- output ----------
-    def emit_c(self, prelude_includes=()):
+    def emit_c(self, prelude_includes=(), after_structs=''):
         out = []
         for inc in prelude_includes:
             out.append('#include "%s"' % inc)
@@ -1852,6 +1980,7 @@ class Lower:
         for s in self.struct_order:
             out.append(self.structs[s])
             out.append('')
+        out.append(after_structs)
         for gid, (nm, text) in self.globals.items():
             if text:
                 out.append(text)
